@@ -16,7 +16,7 @@
     `TypeError` for a non-String map key or a non-scalar enum literal).
   * `defsAcc` threads the `definitions_schema` dict in the code's write order
     (`definitions[name] = …` after the nested call).
-  Key-renaming serialization mappers are not modelled here (mapper-free classes).
+  A key-renaming serialization mapper is modelled at the top-level class only (`classSchemaM`).
 -/
 import TypedpyModel.Core.Field
 namespace Typedpy.Sch
@@ -311,6 +311,66 @@ end
 def classSchema (fx : Bool) : FieldDecl → PyVal
   | .struct c fields defaults => structShape c defaults (emitP fx fields)
   | _ => .none
+
+/-! ### a key-renaming `_serialization_mapper` on the top-level class
+
+  `km` is the string-valued part of the aggregated mapper restricted to renames of the class's own
+  keys (`mapper[key]` when it is a `str`): for one dict mapper `d` that is `d.get(key, key)`
+  (Sem/Mappers.lean proves the aggregate pointwise for mapper lists).  `<field>._mapper` entries,
+  `DoNotSerialize`, `FunctionCall`, `Constant` and the case converters are not modelled here. -/
+
+abbrev KeyMap := List (String × String)
+
+/-- `mapper[key] if key in mapper and isinstance(mapper[key], str) else key` -/
+def mapName (km : KeyMap) (n : String) : String := (lookup n km).getD n
+
+/-- `required[required.index(a)] = b` -/
+def replaceFirst (a b : String) : List String → List String
+  | [] => []
+  | x :: xs => if x == a then b :: xs else x :: replaceFirst a b xs
+
+/-- the `required` list after `_generate_schema_for_fields_internal`: the code renames IN PLACE while
+    it walks the fields (`if key in required: required[required.index(key)] = mapped_key`), so a name
+    written for an earlier field is renamed again when a later field has that name; a field with a
+    default is appended under its mapped key -/
+def requiredM (km : KeyMap) (defaults : List (String × PyVal)) : List String → List String → List String
+  | [], req => req
+  | n :: ns, req =>
+    let req1 := replaceFirst n (mapName km n) req
+    let req2 := if (lookup n defaults).isSome && !req1.contains (mapName km n) then req1 ++ [mapName km n] else req1
+    requiredM km defaults ns req2
+
+/-- `properties[mapped_key] = sub_schema`, one entry per field (mapped keys that collide overwrite
+    each other in the code: outside the model, the correspondence run skips such classes) -/
+def propsOfM (km : KeyMap) (defaults : List (String × PyVal)) : List (String × PyVal) → List (PyVal × PyVal)
+  | [] => []
+  | (n, s) :: rest => kw (mapName km n) (addDefault s (lookup n defaults)) :: propsOfM km defaults rest
+
+def classObjM (km : KeyMap) (c : ClassOpts) (defaults : List (String × PyVal)) (fields : List (String × PyVal)) : PyVal :=
+  .dict [kw "type" (.str "object"),
+         kw "properties" (.dict (propsOfM km defaults fields)),
+         kw "required" (.list ((requiredM km defaults (fields.map (·.1)) c.required).map PyVal.str)),
+         kw "additionalProperties" (.bool c.addl)]
+
+/-- `structure_to_schema(cls, {})[0]` for a class with key map `km` (the field-wrapper form does not
+    look at the mapper) -/
+def classSchemaM (fx : Bool) (km : KeyMap) : FieldDecl → PyVal
+  | .struct c fields defaults =>
+    if collapses c (fields.map (·.1)) then
+      (match emitP fx fields with
+       | (_, s) :: _ => s
+       | [] => .none)
+    else classObjM km c defaults (emitP fx fields)
+  | _ => .none
+
+/-- `serialize_internal` with the key map: every attribute under its mapped key -/
+def renameKeys (km : KeyMap) : List (PyVal × PyVal) → List (PyVal × PyVal)
+  | [] => []
+  | (k, v) :: rest => ((match k with | .str n => PyVal.str (mapName km n) | o => o), v) :: renameKeys km rest
+
+def renameDoc (km : KeyMap) : PyVal → PyVal
+  | .dict kvs => .dict (renameKeys km kvs)
+  | o => o
 
 abbrev Defs := List (String × PyVal)
 
